@@ -36,6 +36,11 @@ const (
 // guarded runs f, measuring allocation and time.  Panics propagate (safeEval
 // attributes them).
 func guarded(name string, inputLen int, o *Obs, f func()) error {
+	return guardedLimit(name, inputLen, c08SlowSeconds, o, f)
+}
+
+// guardedLimit is guarded with an explicit time limit (seconds).
+func guardedLimit(name string, inputLen int, slow float64, o *Obs, f func()) error {
 	var m0, m1 runtime.MemStats
 	runtime.ReadMemStats(&m0)
 	t0 := time.Now()
@@ -51,13 +56,13 @@ func guarded(name string, inputLen int, o *Obs, f func()) error {
 				return nil
 			}
 		}
-		return fmt.Errorf("%s allocated %d bytes for an input of %d bytes (allowance %d = 2 MiB + 8 KiB per input byte): allocation follows a count claimed inside the input",
+		return fmt.Errorf("%s allocated %d bytes for an input of %d bytes (allowance %d = 2 MiB + 8 KiB per input byte): allocation is not proportional to the input (follows a count claimed inside it, or repeated work)",
 			name, alloc, inputLen, limit)
 	}
-	if dur > c08SlowSeconds {
+	if dur > slow {
 		t1 := time.Now()
 		f()
-		if d2 := time.Since(t1).Seconds(); d2 > c08SlowSeconds {
+		if d2 := time.Since(t1).Seconds(); d2 > slow {
 			return fmt.Errorf("%s needs %.1fs (and %.1fs when repeated) on an input of %d bytes", name, dur, d2, inputLen)
 		}
 		o.Class("C08:slow-once(inconclusive)")
@@ -288,6 +293,17 @@ func evalC08Wire(c c08Bytes, o *Obs) error {
 			blk.Tx(i)
 			blk.TxHash(i)
 		}
+		// a parsed block is what a node builds merkle proofs for
+		if n <= 64 {
+			flt := bloom.LoadFilter(wire.NewMsgFilterLoad([]byte{0xff, 0x01, 0x80}, 2, 7, wire.BloomUpdateAll))
+			bloom.NewMerkleBlock(blk, flt)
+			merkleblock.NewMerkleBlockWithFilter(blk, flt)
+			var set []*chainhash.Hash
+			if n > 0 {
+				set = append(set, blk.Transactions()[n-1].Hash())
+			}
+			merkleblock.NewMerkleBlockWithTxnSet(blk, set)
+		}
 	}
 	if err := guarded("NewBlockFromBytes", len(b), o, func() {
 		if blk, err := bchutil.NewBlockFromBytes(b); err == nil {
@@ -511,6 +527,110 @@ func genC08Filter(t *rapid.T) c08Filter {
 }
 
 var kC08Filter = register(&Kind[c08Filter]{Prop: "C08", Name: "filterload", Gen: genC08Filter, Eval: evalC08Filter})
+
+// ---- kind: block scans over layered spend graphs -------------------------------------------
+
+type c08Scan struct {
+	N       int    `json:"n"`     // transactions
+	Fan     int    `json:"fan"`   // each transaction spends this many outputs of its parent(s)
+	Span    int    `json:"span"`  // parents are among the next Span transactions in creation order
+	Order   string `json:"order"` // children-first | parents-first | interleaved
+	Flags   byte   `json:"flags"`
+	Watched bool   `json:"watched"` // the filter contains the script item every output carries
+}
+
+func (c c08Scan) build() (*wire.MsgBlock, []byte, int) {
+	item := []byte{0xd1, 0xa9, 0x07, 0x4e}
+	txs := make([]*wire.MsgTx, c.N)
+	size := 0
+	for i := c.N - 1; i >= 0; i-- {
+		tx := wire.NewMsgTx(1)
+		if i == c.N-1 {
+			var h chainhash.Hash
+			tx.AddTxIn(wire.NewTxIn(wire.NewOutPoint(&h, 0), nil))
+		} else {
+			for k := 0; k < c.Fan; k++ {
+				p := i + 1 + k%c.Span
+				if p >= c.N {
+					p = c.N - 1
+				}
+				ph := txs[p].TxHash()
+				tx.AddTxIn(wire.NewTxIn(wire.NewOutPoint(&ph, uint32(k)), nil))
+			}
+		}
+		script := append([]byte{4}, item...)
+		for k := 0; k < c.Fan; k++ {
+			tx.AddTxOut(wire.NewTxOut(int64(k+1), script, wire.TokenData{}))
+		}
+		tx.LockTime = uint32(i)
+		txs[i] = tx
+		size += tx.SerializeSize()
+	}
+	blk := wire.NewMsgBlock(&wire.BlockHeader{})
+	switch c.Order {
+	case "parents-first":
+		for i := c.N - 1; i >= 0; i-- {
+			blk.AddTransaction(txs[i])
+		}
+	case "interleaved":
+		for i := 0; i < c.N; i += 2 {
+			blk.AddTransaction(txs[i])
+		}
+		for i := 1; i < c.N; i += 2 {
+			blk.AddTransaction(txs[i])
+		}
+	default:
+		for _, tx := range txs {
+			blk.AddTransaction(tx)
+		}
+	}
+	return blk, item, size + 81
+}
+
+func evalC08Scan(c c08Scan, o *Obs) error {
+	if c.N < 1 || c.N > 400 || c.Fan < 1 || c.Fan > 4 || c.Span < 1 {
+		return hbug("bad scan case")
+	}
+	blk, item, size := c.build()
+	o.NT()
+	o.Class("C08:scan-order=" + c.Order)
+	if c.N >= 30 {
+		o.Class("C08:scan-deep-spend-graph")
+	}
+	mk := func() *bloom.Filter {
+		f := bloom.LoadFilter(wire.NewMsgFilterLoad(make([]byte, 512), 5, 1, wire.BloomUpdateType(c.Flags)))
+		if c.Watched {
+			f.Add(item)
+		}
+		return f
+	}
+	// a block of a few kilobytes must be scanned in well under two seconds (quadratic cost would be
+	// microseconds); exponential re-checking of dependants shows up from about 20 transactions
+	if err := guardedLimit("bloom.GetMatchedIndices", size, 2.0, o, func() { bloom.GetMatchedIndices(bchutil.NewBlock(blk), mk()) }); err != nil {
+		return fmt.Errorf("%v (block of %d transactions, each spending %d outputs of earlier ones, order %s)", err, c.N, c.Fan, c.Order)
+	}
+	if err := guardedLimit("bloom.NewMerkleBlock", size, 2.0, o, func() { bloom.NewMerkleBlock(bchutil.NewBlock(blk), mk()) }); err != nil {
+		return err
+	}
+	return guardedLimit("merkleblock.NewMerkleBlockWithFilter", size, 2.0, o, func() { merkleblock.NewMerkleBlockWithFilter(bchutil.NewBlock(blk), mk()) })
+}
+
+var kC08Scan = register(&Kind[c08Scan]{
+	Prop: "C08", Name: "blockscan",
+	Gen: func(t *rapid.T) c08Scan {
+		c := c08Scan{N: rapid.IntRange(1, 60).Draw(t, "n"), Fan: rapid.IntRange(1, 3).Draw(t, "fan"), Span: rapid.IntRange(1, 3).Draw(t, "span"),
+			Order: rapid.SampledFrom([]string{"children-first", "parents-first", "interleaved"}).Draw(t, "order"),
+			Flags: byte(rapid.IntRange(0, 2).Draw(t, "flags")), Watched: rapid.IntRange(0, 3).Draw(t, "watched") != 0}
+		if rapid.IntRange(0, 9).Draw(t, "big") == 0 {
+			c.N = rapid.IntRange(100, 400).Draw(t, "nbig")
+		}
+		if isKnown("scan-exponential") && c.Fan >= 2 && c.N > 14 {
+			c.N = 14 // excluded by construction while the finding is listed
+		}
+		return c
+	},
+	Eval: evalC08Scan,
+})
 
 // ---- kind: merkle block messages --------------------------------------------------------
 
@@ -842,8 +962,13 @@ func TestC08(t *testing.T) {
 		kC08GCS.Run(t, ev, perShard(pick(2500, 100000)))
 		kC08JSON.Run(t, ev, perShard(pick(4000, 200000)))
 		kC08Raw.Run(t, ev, perShard(pick(1500, 60000)))
+		if shard == 0 {
+			kC08Scan.One(ev, c08Scan{N: 20, Fan: 2, Span: 1, Order: "children-first", Flags: 1, Watched: true})
+			kC08Wire.One(ev, c08Bytes{B: append(make([]byte, 80), 0), Origin: "valid-block"}) // block without transactions
+		}
+		kC08Scan.Run(t, ev, perShard(pick(600, 30000)))
 		ev.requireClasses("C08:str-origin=short-cashaddr", "C08:str-passed-outer-layer", "C08:wire-parsed",
 			"C08:filterload-empty-filter-with-hash-funcs", "C08:filterload-via-wire", "C08:merkle-via-wire",
-			"C08:gcs-declared-count-far-above-data", "C08:json-valid", "C08:json-unmarshalled")
+			"C08:gcs-declared-count-far-above-data", "C08:json-valid", "C08:json-unmarshalled", "C08:scan-deep-spend-graph")
 	})
 }
